@@ -108,8 +108,10 @@ type Exec struct {
 	ended    bool
 	finished chan struct{}
 	EndWhy   string
-	Failures []Failure
-	Outcome  string
+	// DeadlockMain / DeadlockInfo describe the blocked threads when the execution ended in a deadlock.
+	DeadlockMain, DeadlockInfo string
+	Failures                   []Failure
+	Outcome                    string
 
 	now         int64
 	timers      []*Timer
@@ -144,6 +146,8 @@ type Options struct {
 	MaxSteps    int
 	TimerBudget int // timers fired automatically at quiescence
 	Trace       bool
+	// AllowDeadlock: do not record a failure when no thread can run before the main thread returned.
+	AllowDeadlock bool
 }
 
 var nextStart []func()
@@ -200,6 +204,9 @@ func RunOnce(prefix []int, o Options, body func()) *Exec {
 		e.resets[i]()
 	}
 	E = nil
+	if e.EndWhy == "deadlock" && len(e.Failures) == 0 && !o.AllowDeadlock {
+		e.Failures = append(e.Failures, Failure{Sig: "deadlock / main thread blocked in " + e.DeadlockMain, Detail: "no thread can run: " + e.DeadlockInfo})
+	}
 	return e
 }
 
@@ -262,6 +269,21 @@ func (e *Exec) end(why string) {
 	}
 	e.ended = true
 	e.EndWhy = why
+	if why == "deadlock" {
+		var who []string
+		for _, t := range e.threads {
+			if t.exited {
+				continue
+			}
+			if t.id == 0 {
+				e.DeadlockMain = t.kind
+			}
+			if !t.server {
+				who = append(who, fmt.Sprintf("%s blocked in %s(%s)", t.name, t.kind, e.objName(t.obj)))
+			}
+		}
+		e.DeadlockInfo = strings.Join(who, "; ")
+	}
 	close(e.finished)
 }
 
